@@ -61,7 +61,7 @@ def obs(x):
             custom = (definition.gate_name, [sympy.srepr(e) for e in definition.matrix], [str(p) for p in definition.params_ordering])
         return ("op", repr(fingerprint(x.gate)), [str(p) for p in x.gate.params], tuple(x.qubit_indices), custom)
     if isinstance(x, PauliTerm):
-        return ("term", tuple(sorted(x.operations)), complex(x.coefficient))
+        return ("term", tuple(sorted(x.operations)), complex(x.coefficient), type(x.coefficient).__name__)
     if isinstance(x, PauliSum):
         return ("sum", [obs(t) for t in x.terms])
     if isinstance(x, Measurements):
